@@ -270,6 +270,58 @@ def accessor_oracle(w, o, pkt, exp):
     return None
 
 
+def demux_scenario(args):
+    """agent level: the demultiplexer of agent_recv_message_unlocked asks the vectored pre-check and then the contiguous
+    check about the same datagram; for every compatibility mode the two must agree with the grammar of THAT mode (padded
+    attributes, or unpadded for OC2007 / OC2007R2).  Two real agents reach READY; the peer's validated address then sends
+    well-formed Binding requests without credentials whose total length is and is not a multiple of four.  The agent
+    must treat every one of them as control traffic (it answers 400); none may reach the application as data."""
+    exe, seed, tier = args
+    import random, re, struct, zlib
+    from lib import simlib, stunpy
+    rng = random.Random(f"C06demux/{seed}")
+    compat = rng.choice([0, 5, 5, 4])
+    padded = compat not in (4, 5)
+    s = simlib.Sim(exe)
+    bad = []
+    try:
+        s.op(f"net seed {seed}"); s.op("net latency 1 2")
+        s.op(f"new A ctrl=1 compat={compat} opts=0"); s.op(f"new B ctrl=0 compat={compat} opts=0")
+        for ag in "AB":
+            s.op(f"stream {ag} 1"); s.op(f"attach {ag} 1"); s.op(f"gather {ag} 1")
+        s.op("run 50")
+        for st_ in ("creds A 1 B 1", "creds B 1 A 1", "cands A 1 1 B 1", "cands B 1 1 A 1"):
+            s.op(st_)
+        s.op("runidle 20000")
+        qa = simlib.parse_q(s.op("q A 1 1")[1])
+        if qa["state"] != "READY":
+            return dict(seed=seed, compat=compat, bad=[], script=s.script, n=0, ready=False)
+        sent = []
+        for L in rng.sample(range(1, 40), 12):
+            val = bytes(rng.randrange(33, 127) for _ in range(L))
+            body = struct.pack("!HH", 0x0006, L) + val + (b"\0" * ((4 - L % 4) % 4) if padded else b"")
+            txid = bytes(rng.randrange(256) for _ in range(12))
+            # FINGERPRINT (both agents' STUN usage demands it): CRC-32 of everything before it, length field already final
+            pre = struct.pack("!HHI", 0x0001, len(body) + 8, 0x2112A442) + txid + body
+            msg = pre + struct.pack("!HHI", 0x8028, 4, (zlib.crc32(pre) & 0xffffffff) ^ 0x5354554e)
+            sent.append(msg.hex())
+            s.op(f"inject {qa['remote']} {qa['local']} {msg.hex()}")
+            s.op("run 20")
+        s.op("run 200")
+        for e in s.events():
+            m = re.match(r"t=\d+ A recv 1 1 (\S+)", e)
+            if m and m.group(1) in sent:
+                n = len(m.group(1)) // 2
+                bad.append(f"compatibility {compat} ({'padded' if padded else 'unpadded'} attributes): a well-formed {n}-byte Binding request "
+                           f"from the validated peer address was handed to the application as data ({m.group(1)[:40]}..)")
+                break
+        return dict(seed=seed, compat=compat, bad=bad, script=s.script, n=len(sent), ready=True)
+    except simlib.SimDied as e:
+        return dict(seed=seed, compat=compat, bad=["crash: " + str(e)[-800:]], script=s.script, n=0, ready=False)
+    finally:
+        s.close()
+
+
 def run(tier, seed):
     chk = vlib.Check("C06", tier, seed)
     chk.cov["trusted_base"] = TRUSTED
@@ -314,6 +366,19 @@ def run(tier, seed):
                         results[k] = results.get(k, 0) + 1
                         if x not in ("notvalid", "none", "ret 1"):
                             distinct.add(line)
+            from checks import simcommon as sc
+            from lib import simlib
+            ok2, sexe, log2 = sc.build_sim()
+            if ok2:
+                dm = simlib.run_parallel(demux_scenario, [(sexe, seed * 100000 + i, tier) for i in range(8 if tier == "quick" else 80)])
+                for r in dm:
+                    for w_ in r["bad"]:
+                        ofail.append({"why": "agent demultiplexer: " + w_, "session": r["script"]})
+                chk.cov["agent_demux_sessions"] = {"sessions": len(dm), "ready": sum(1 for r in dm if r["ready"]),
+                                                   "requests_injected": sum(r["n"] for r in dm),
+                                                   "by_compatibility": {str(c): sum(1 for r in dm if r["compat"] == c) for c in (0, 4, 5)}}
+            else:
+                chk.note("simulator build failed (agent-level demultiplexer sessions skipped): " + log2[-500:])
             if os.path.exists(vlib.model_exe()):
                 diverged, total = vlib.diff_sessions(exe, Ss)
             chk.cov["evaluations"] = nlen + nfind
